@@ -222,7 +222,15 @@ func scanReal(q string) (toks []sql.Token, panicMsg string) {
 }
 
 func parseReal(toks []sql.Token) string {
+	out, _ := parseRealCur(toks)
+	return out
+}
+
+// parseRealCur also returns the type of the token the parser stands on after a successful parse
+// (-1 = EOF): anything else means the rest of the input was never looked at.
+func parseRealCur(toks []sql.Token) (string, int) {
 	out := ""
+	cur := -1
 	pm := hx.Catch(func() {
 		tl := sql.TokenList{}
 		for _, t := range toks {
@@ -234,12 +242,13 @@ func parseReal(toks []sql.Token) string {
 			out = "err " + sqlErrKind(err)
 		} else {
 			out = "ok " + sxStmt(st)
+			cur = int(p.Cur().Type)
 		}
 	})
 	if pm != "" {
-		return "panic"
+		return "panic", -1
 	}
-	return out
+	return out, cur
 }
 
 // runeAnnotations describes every non-ASCII rune as Scanner.next decodes it.
